@@ -64,3 +64,11 @@ Print Assumptions C11_nondifferentiable_functions_return_arrays.
 Theorem C11_overridden_functions_return_tensors : forall p, In p np_func_override -> exists c, array_function (fst p) = FTensor c.
 Proof. exact overridden_functions_tensors. Qed.
 Print Assumptions C11_overridden_functions_return_tensors.
+
+Theorem C11_ufunc_methods_forwarded : au_honours_method_registered = true /\ au_honours_method_fallback = true.
+Proof. exact ufunc_method_honoured. Qed.
+Print Assumptions C11_ufunc_methods_forwarded.
+
+Theorem C11_shortcuts_only_for_plain_scalars : forall p, In p shortcut_operand_types -> shortcut_types_ok p = true.
+Proof. exact shortcuts_only_for_plain_scalars. Qed.
+Print Assumptions C11_shortcuts_only_for_plain_scalars.
